@@ -8,7 +8,7 @@ m = {
  "version": 1,
  "setup_cmd": "cd /verif && export GOFLAGS=-mod=mod GOPROXY=off GOSUMDB=off GOTOOLCHAIN=local && go build -o bin/govc ./cmd/govc",
  "hooks": {"guard": "verif",
-           "enable": "go/packages loads /repo with -tags=verif so that /repo/contracts_verif.go (package clause + //@ contract comments, no executable code) and /repo/clients_verif.go (composition clients: a dozen unexported functions of two to five lines that only call exported operations, never called themselves) are part of the analysed package; neither file is compiled into the library without the tag",
+           "enable": "go/packages loads /repo with -tags=verif so that /repo/contracts_verif.go (package clause + //@ contract comments, no executable code) and /repo/clients_verif.go (composition clients: 20 unexported functions of two to eight lines that only call exported operations, never called themselves) are part of the analysed package; neither file is compiled into the library without the tag",
            "baseline_off_cmd": "cd /repo && GOFLAGS=-mod=mod GOPROXY=off GOSUMDB=off GOTOOLCHAIN=local go test -vet=off -count=1 -timeout 25m ./...",
            "source_commits": hooks, "add_only": True},
  "engines": [{"name": "govc", "path": "/verif/cmd/govc", "serves_properties": [p['id'] for p in props if meta.get(p['id'], {}).get('claimed')],
